@@ -290,6 +290,10 @@ Call(e) ==
               \/ ~(\E o \in outs : ~o.any /\ e.r.cls \in o.cls /\ retOK(o)
                        /\ [Norm(o.doc) EXCEPT !.rev = 0] = [Norm(postObs) EXCEPT !.rev = 0]),
               {"C17"}, <<"rev", Class(pre)>>, {o.doc.rev : o \in outs}, postObs.rev)
+        \* ---- the result of an update callback is stored on top of exactly the version the callback was shown (C03)
+        fShown ==
+            F(~(e.op = "WriteUpdateWithXattrs" /\ mut /\ ~isPurge /\ Len(e.shown) > 0) \/ e.shown[Len(e.shown)] = pre.cas,
+              {"C03"}, <<"stored-on-another-version-than-shown", Class(pre)>>, pre.cas, e.shown)
         \* ---- a regular mutation carries a CAS above everything issued before (C04, C01)
         fFresh ==
             F(~(mut /\ regular /\ ~isPurge) \/ postObs.cas > clock, {"C04", "C01"}, <<"cas-not-fresh">>, clock, postObs.cas)
@@ -381,7 +385,7 @@ Call(e) ==
     /\ dumps' = nd
     /\ clock' = IF mut /\ regular /\ ~isPurge /\ postObs.cas > clock THEN postObs.cas ELSE clock
     /\ start' = start
-    /\ nfail' = nfail + fStep + fRev + fFresh + fReaders + fOthers + fLive + fMlive + fKlive + fDump + fDump2 + (IF isPurge THEN 0 ELSE fAux + fFresh2)
+    /\ nfail' = nfail + fStep + fRev + fShown + fFresh + fReaders + fOthers + fLive + fMlive + fKlive + fDump + fDump2 + (IF isPurge THEN 0 ELSE fAux + fFresh2)
     /\ evlog' = IF mut /\ ~isPurge THEN [evlog EXCEPT ![c] = Append(@, <<e.i, EventOf(k, post, CollId(c))>>)] ELSE evlog
     /\ verlog' = [c2 \in Colls |->
                     LET ks == {k2 \in Keys : newDocs[c2][k2] # docs[c2][k2]} IN
